@@ -301,6 +301,21 @@ def run_suite(suite, tier, seed, tag, replay_in=None, extra_env=None):
     timeout = suite.get("timeout_" + tier, 600 if tier == "quick" else 3000)
     rc, out = run_go_driver(suite, trace, env, timeout)
     res.driver_rc, res.driver_log = rc, out[-6000:]
+    if rc != 0 and ("panic:" in out or "fatal error:" in out) and suite["name"] == "e2e" and not replay_in:
+        # the process under test died: run the scenarios again one at a time, so that the marker
+        # left behind names the scenario during which it dies
+        for f in os.listdir(tmpdir):
+            if f.startswith("running-"):
+                os.remove(os.path.join(tmpdir, f))
+        env1 = dict(env, VERIF_E2E_PAR=1)
+        rc1, out1 = run_go_driver(suite, trace, env1, timeout * 3)
+        left = sorted(f for f in os.listdir(tmpdir) if f.startswith("running-"))
+        if rc1 != 0 and len(left) == 1 and ("panic:" in out1 or "fatal error:" in out1):
+            i = out1.find("panic:")
+            if i < 0:
+                i = out1.find("fatal error:")
+            res.extra["crashed_case"] = open(os.path.join(tmpdir, left[0])).read().strip()
+            res.extra["crash_log"] = out1[i:i + 3000]
     if rc != 0 or not os.path.exists(trace):
         res.wall = time.time() - t0
         shutil.rmtree(tmpdir, ignore_errors=True)
@@ -336,13 +351,14 @@ def run_suite(suite, tier, seed, tag, replay_in=None, extra_env=None):
         ofails = [] if oracles == "-" else oracles.split(",")
         if only_o is not None:
             ofails = [o for o in ofails if o[:-2] in only_o]
+        not_comparable = False
         if only_d is not None and status.startswith("DIFF:") and not status.startswith("DIFF:malformed"):
             kinds = [d.split("@")[0] for d in status[5:].split(",")]
             if not any(k in only_d for k in kinds):
-                # the first divergence concerns another property's observables: this
-                # case cannot be compared further for this property
-                res.not_comparable += 1
-                continue
+                # the first divergence concerns another property's observables: the model
+                # comparison of this case belongs to that property's check; what the
+                # implementation did is still judged by THIS property's oracles below
+                not_comparable = True
         unpred = [o[:-2] for o in ofails if o.endswith(":U")]
         pred = [o[:-2] for o in ofails if o.endswith(":P")]
         if unpred:
@@ -356,6 +372,9 @@ def run_suite(suite, tier, seed, tag, replay_in=None, extra_env=None):
             res.oracle_U.append((k, line, unpred))
         for o in pred:
             res.oracle_P.setdefault(o, []).append((k, line))
+        if not_comparable:
+            res.not_comparable += 1
+            continue
         if status == "AGREE":
             res.agree += 1
         elif status.startswith("DIFF:malformed"):
